@@ -240,7 +240,7 @@ impl Family for Inject {
         let n = rng.range(1, 4);
         let mut out = vec![];
         for _ in 0..n {
-            let kind = rng.below(12);
+            let kind = rng.below(13);
             let (is_ip, bytes): (bool, Vec<u8>) = match kind {
                 0 => (true, rb(rng, 60)),
                 1 => {
@@ -302,6 +302,23 @@ impl Family for Inject {
                     } else {
                         f[9] = *rng.pick(&[0u8, 1, 2, 47, 255]);
                     }
+                    (true, f)
+                }
+                12 => {
+                    // fragments whose end (offset*8 + total length) lies around the largest possible datagram:
+                    // the boundary of the reassembly arithmetic (u16 sums), dense in both directions
+                    let mut f = valid_udp(&rb(rng, 24), UDP_PORT);
+                    let fo = rng.range(8176, 8191) as u16;
+                    let end = rng.range(65500, 65580) as i64; // offset*8 + total_length
+                    let tl = (end - fo as i64 * 8).clamp(20, 200) as u16;
+                    let mf = rng.coin(1, 3) as u16;
+                    let w = (mf << 13) | fo;
+                    f[6] = (w >> 8) as u8;
+                    f[7] = w as u8;
+                    f[2] = (tl >> 8) as u8;
+                    f[3] = tl as u8;
+                    // make the frame as long as it claims (the decoder does not check, later stages may)
+                    f.resize((tl as usize).max(20), 0x5a);
                     (true, f)
                 }
                 8 => (false, rb(rng, 40)),
